@@ -18,7 +18,9 @@ RUST_KEYWORDS = {'as', 'break', 'const', 'continue', 'crate', 'else', 'enum', 'e
 RAWABLE = ['type', 'fn', 'let', 'in', 'match', 'ref', 'use', 'mod', 'enum', 'struct', 'static', 'const', 'final', 'override', 'yield', 'as', 'box', 'do', 'try']
 FIELD_IDENTS = ['id', 'name', 'user_id', 'created_at', 'value', 'items', 'count', 'kind', 'data', 'flag', 'x', 'y2', 'address_line1', 'is_ok', 'a_b_c',
                 'class', 'default', 'func', 'var', 'is', 'from', 'import', 'object', 'val', 'package', 'def', 'none', 'interface', 'internal', 'inout',
-                'switch', 'case', 'extension', 'protocol', 'go', 'chan', 'range', 'lambda', 'pass', 'with', 'global', 'del', 'public', 'private', 'init']
+                'switch', 'case', 'extension', 'protocol', 'go', 'chan', 'range', 'lambda', 'pass', 'with', 'global', 'del', 'public', 'private', 'init',
+                # not keywords themselves, but keywords once a back end has re-cased them (convert_case's Snake drops the outer underscores)
+                'from_', 'in_', '_from', 'is_', 'class_', '_import', 'operator', 'return_', 'try_', 'true_', 'type_']
 TYPE_IDENTS = ['Foo', 'Bar', 'Baz', 'Item', 'UserId', 'Config', 'Point', 'Wrapper', 'Node', 'Color', 'Shape', 'Event', 'Payload', 'Options', 'Account',
                'Address', 'Credential', 'Vault', 'Session', 'Token']
 VARIANT_IDENTS = ['A', 'B', 'Red', 'GreenLight', 'Unit', 'Ready', 'Failed', 'Ok2', 'V1', 'Http2', 'AddressLine1', 'Pending', 'Done', 'Empty', 'Full', 'Leaf', 'Branch']
